@@ -42,6 +42,16 @@ def plan(prop):
              (1, True, 2, True), (2, True, 1, True), (0, True, 3, False)]
         for k, closed, ntw, bk in scans:
             obs.append((core, lambda ctx, k=k, c=closed, n=ntw, b=bk: co.ob_leg_scan(ctx, k, c, n, b)))
+    if prop == 'C06':
+        e2e = [(0, 1, True), (1, 1, True), (0, 2, True), (0, 3, True), (1, 1, False), (0, 2, False)] if Q else \
+            [(0, 1, True), (1, 1, True), (2, 1, True), (0, 2, True), (0, 3, True), (1, 2, True), (1, 1, False), (2, 1, False), (0, 2, False), (0, 3, False), (1, 2, False)]
+        for k, n, closed in e2e:
+            obs.append((core, lambda ctx, k=k, n=n, c=closed: co.ob_insertion_e2e(ctx, k, n, c)))
+        cap = [(0, 'single', True), (1, 'single', True), (0, 'shipment', True), (1, 'shipment', True)] if Q else \
+            [(0, 'single', True), (1, 'single', True), (2, 'single', True), (0, 'shipment', True), (1, 'shipment', True),
+             (1, 'single', False), (1, 'shipment', False)]
+        for k, shape, closed in cap:
+            obs.append((core, lambda ctx, k=k, s=shape, c=closed: co.ob_capacity_e2e(ctx, k, s, c)))
     if prop in ('C06', 'C03', 'C05'):
         for k, closed in shapes:
             obs.append((core, lambda ctx, k=k, c=closed: co.ob_schedule_state_statistics(ctx, k, c, bits)))
